@@ -23,6 +23,10 @@ RE_INT = re.compile(r"-?[0-9]+(?:[eE]\+?[0-9]+)?")
 # RE_FLOAT includes numbers with a negative exponent and no decimal point.
 RE_FLOAT = re.compile(r"(:?-?[0-9]+\.[0-9]+(?:[eE][+-]?[0-9]+)?)|(-?[0-9]+[eE]-[0-9]+)")
 RE_FUNCTION_NAME = re.compile(r"[a-z][a-z_0-9]*")
+# A keyword literal is not the start of a function name, like `truex(...)`.
+RE_TRUE = re.compile(r"true(?![a-z_0-9(])")
+RE_FALSE = re.compile(r"false(?![a-z_0-9(])")
+RE_NULL = re.compile(r"null(?![a-z_0-9(])")
 ESCAPES = frozenset(["b", "f", "n", "r", "t", "u", "/", "\\"])
 
 
@@ -415,11 +419,11 @@ def lex_inside_filter(l: Lexer) -> Optional[StateFn]:  # noqa: D103, PLR0915, PL
             l.emit(TokenType.AND)
         elif l.accept("||"):
             l.emit(TokenType.OR)
-        elif l.accept("true"):
+        elif l.accept_match(RE_TRUE):
             l.emit(TokenType.TRUE)
-        elif l.accept("false"):
+        elif l.accept_match(RE_FALSE):
             l.emit(TokenType.FALSE)
-        elif l.accept("null"):
+        elif l.accept_match(RE_NULL):
             l.emit(TokenType.NULL)
         elif l.accept_match(RE_FLOAT):
             l.emit(TokenType.FLOAT)
